@@ -468,21 +468,63 @@ func rewriteContract(s string) string {
 	if s == "" {
 		return s
 	}
-	if strings.HasPrefix(s, "forall ") || strings.HasPrefix(s, "exists ") {
-		if i := findTop(s, "::"); i >= 0 {
-			q := s[:6]
-			vars := strings.TrimSpace(s[7:i])
-			body := rewriteContract(s[i+2:])
-			return fmt.Sprintf("%s__(func(%s) bool { return %s })", q, vars, body)
+	// a quantifier extends as far to the right as possible
+	qi := findQuant(s)
+	i1, i2 := findTop(s, "<==>"), findTop(s, "==>")
+	firstImp := i1
+	if firstImp < 0 || (i2 >= 0 && i2 < firstImp) {
+		firstImp = i2
+	}
+	if qi >= 0 && (firstImp < 0 || qi < firstImp) {
+		if qi == 0 {
+			if i := findTop(s, "::"); i >= 0 {
+				q := s[:6]
+				vars := strings.TrimSpace(s[7:i])
+				body := rewriteContract(s[i+2:])
+				return fmt.Sprintf("%s__(func(%s) bool { return %s })", q, vars, body)
+			}
+		} else {
+			return rewriteGroups(s[:qi]) + rewriteContract(s[qi:])
 		}
 	}
-	if i := findTop(s, "<==>"); i >= 0 {
-		return fmt.Sprintf("iff__(%s, %s)", rewriteContract(s[:i]), rewriteContract(s[i+4:]))
+	if i1 >= 0 {
+		return fmt.Sprintf("iff__(%s, %s)", rewriteContract(s[:i1]), rewriteContract(s[i1+4:]))
 	}
-	if i := findTop(s, "==>"); i >= 0 {
-		return fmt.Sprintf("implies__(%s, %s)", rewriteContract(s[:i]), rewriteContract(s[i+3:]))
+	if i2 >= 0 {
+		return fmt.Sprintf("implies__(%s, %s)", rewriteContract(s[:i2]), rewriteContract(s[i2+3:]))
 	}
-	// descend into bracketed groups
+	return rewriteGroups(s)
+}
+
+// findQuant finds the first top-level "forall " / "exists " keyword at a word boundary.
+func findQuant(s string) int {
+	best := -1
+	for _, kw := range []string{"forall ", "exists "} {
+		from := 0
+		for {
+			i := findTop(s[from:], kw)
+			if i < 0 {
+				break
+			}
+			i += from
+			if i == 0 || !(isIdentChar(s[i-1])) {
+				if best < 0 || i < best {
+					best = i
+				}
+				break
+			}
+			from = i + 1
+		}
+	}
+	return best
+}
+
+func isIdentChar(c byte) bool {
+	return c == '_' || (c >= '0' && c <= '9') || (c >= 'a' && c <= 'z') || (c >= 'A' && c <= 'Z')
+}
+
+// rewriteGroups descends into bracketed groups of s, rewriting their contents.
+func rewriteGroups(s string) string {
 	var b strings.Builder
 	inStr := byte(0)
 	for i := 0; i < len(s); i++ {
